@@ -167,7 +167,7 @@ pub fn render(p: &Program, deco: u64, spacing: u64, o: &Opts) -> Rendered {
     key_depth.insert(0, 0);
     let mut mark_at_tok: std::collections::HashMap<usize, &MarkAt> = Default::default();
     for m in &marks {
-        let d = key_depth.get(&m.refk).copied().unwrap_or(0) + if m.kind == 'C' || m.kind == 'B' { 0 } else { m.delta };
+        let d = key_depth.get(&m.refk).copied().unwrap_or(0) + if m.kind == 'C' || m.kind == 'B' || m.kind == 'E' { 0 } else { m.delta };
         key_depth.insert(m.key, if matches!(m.kind, 'R' | 'A' | 'T') { key_depth.get(&m.refk).copied().unwrap_or(0) + 1 } else { d });
         if !matches!(m.kind, 'R' | 'A' | 'T') || !mark_at_tok.contains_key(&m.ordinal) {
             mark_at_tok.entry(m.ordinal).or_insert(m);
@@ -279,7 +279,7 @@ pub fn render(p: &Program, deco: u64, spacing: u64, o: &Opts) -> Rendered {
     let mut need_newline = false; // after a line comment
     for i in 0..n {
         let mut r = gap_rng(spacing, i, 3);
-        let marked_line_start = mark_at_tok.get(&i).is_some_and(|m| matches!(m.kind, 'S' | 'D' | 'C' | 'R' | 'A' | 'T')) && !(matches!(mark_at_tok[&i].kind, 'R' | 'A' | 'T') && i > 0 && !is_marked(i) && !matches!(toks[i].as_str(), "begin" | "const" | "var" | "type" | "threadvar" | "resourcestring" | "private" | "protected" | "public" | "published" | "strict" | "initialization" | "finalization" | "procedure" | "function" | "constructor" | "destructor" | "class"));
+        let marked_line_start = mark_at_tok.get(&i).is_some_and(|m| matches!(m.kind, 'S' | 'D' | 'C' | 'R' | 'A' | 'T' | 'U' | 'E')) && !(matches!(mark_at_tok[&i].kind, 'R' | 'A' | 'T') && i > 0 && !is_marked(i) && !matches!(toks[i].as_str(), "begin" | "const" | "var" | "type" | "threadvar" | "resourcestring" | "private" | "protected" | "public" | "published" | "strict" | "initialization" | "finalization" | "procedure" | "function" | "constructor" | "destructor" | "class"));
         let ind: String = indent_unit.repeat(depth_at[i] as usize);
         let ind_c: String = "  ".repeat(depth_at[i] as usize);
         // the spacing-dependent gap (what C06 says must not matter)
